@@ -66,7 +66,8 @@ pub fn check(p: &Pos, rep: &mut Report, rng: &mut StdRng) {
 
 pub fn line(p: &Pos, rep: &mut Report, rng: &mut StdRng) {
     let fen = p.to_fen();
-    let k = rng.gen_range(2..=64);
+    // mostly short lines, sometimes whole games
+    let k = if rng.gen_range(0..8) == 0 { rng.gen_range(65..=400) } else { rng.gen_range(2..=64) };
     let policy = gen::POLICIES[rng.gen_range(0..3)];
     let (_ps, ms) = gen::walk(rng, p, policy, k);
     if ms.is_empty() {
